@@ -11,7 +11,7 @@ SIM = os.path.join(VERIF, "sim")
 ASAN_FLAGS = "-fsanitize=address,bounds,pointer-overflow,null,object-size -fno-sanitize-recover=all -fno-omit-frame-pointer -g"
 VARIANTS = {
     # name: (cc, lib cflags, harness cflags, link flags, extra defines)
-    "plain":   ("gcc",   "-g", "-O2 -g -Wno-format-truncation", "", ""),
+    "plain":   ("gcc",   "-g", "-O2 -g -Wno-format-truncation", "", "-DGMSIM_ARENA"),
     "asan":    ("gcc",   ASAN_FLAGS, "-O1 -Wno-format-truncation " + ASAN_FLAGS, ASAN_FLAGS, ""),
     "asan-if": ("gcc",   ASAN_FLAGS + " -finstrument-functions", "-O1 " + ASAN_FLAGS, ASAN_FLAGS, "-DGMSIM_HOOKED"),
     "tsan-if": ("clang", "-fsanitize=thread -finstrument-functions -g", "-O1 -g", "-fsanitize=thread", "-DGMSIM_HOOKED -DGMSIM_TSAN -DGMSIM_THREADS"),
@@ -93,7 +93,8 @@ def build_harness(variant, lib):
             sys.stderr.write(out)
         open(stamp, "w").write(key)
     exe = os.path.join(BUILD, variant, "gmsim")
-    wrap = ",".join("--wrap=" + w for w in WRAPS)
+    wraps = list(WRAPS) + (["malloc", "free", "calloc", "realloc"] if "GMSIM_ARENA" in defs else [])
+    wrap = ",".join("--wrap=" + w for w in wraps)
     need_link = (not os.path.exists(exe) or any(os.path.getmtime(o) > os.path.getmtime(exe) for o in objs)
                  or os.path.getmtime(lib) > os.path.getmtime(exe))
     if need_link:
